@@ -10,7 +10,7 @@ Gen/UmlBlobSrc.v (fail closed, from the AST):
   literals_<function>    every string literal of ClassOperation.__init__, ClassAttribute.__init__, Class.ParseStereotypesAbstractAndDocs,
                          Class.ParseAttributes, Class.ParseOperations, Package.ParseClassesInPackage, Inheritance.Parse,
                          Association.ParseAssociation, GetNestedTypeNamesFromNestedTypeIDS, vppfs.Get_ValuesFromOutside,
-                         vppfs.ParseBLOB_Recursive, LanguageCPP.GetTypeAndNameFromMultiplicityAndModifier,
+                         vppfs.ParseBLOB_Recursive, vppfs.SplitOutsideQuotes, LanguageCPP.GetTypeAndNameFromMultiplicityAndModifier,
                          LanguageCPP.GetDefaultFormatFromMultiplicityAndModifier, Class.GetContainerMultiplicityType -- in source order;
                          Proofs/UmlBlobPins.v pins them to the literals Model/UmlBlob.v was written against
 Gen/UmlBlobShipped.v:
@@ -183,21 +183,12 @@ class Reader:
             val = m2.group(0)
             self.p = m2.end()
             self.expect(b";")
-            if not re.search(rb"[{};=]", val):
-                return [("field", ws, key, val)]
-            # free text with braces / separators (an HTML documentation): raw pieces and inert braced pieces
-            text = ws + key + b"=" + val + b";"
-            out = []
-            for piece in re.split(rb"(\{[^{}]*\})", text):
-                if piece.startswith(b"{"):
-                    if b"=" in piece:
-                        raise Refuse("blob: braced free text containing '='")
-                    out.append(("inert", piece[1:-1]))
-                elif piece:
-                    if b"{" in piece or b"}" in piece:
-                        raise Refuse("blob: unbalanced braces in free text")
-                    out.append(("raw", piece))
-            return out
+            inner = val[1:-1]
+            if re.fullmatch(rb"[\x20-\x7e]*", inner) and not re.search(rb"[=<>;\\\"()'{}]", inner) and inner == inner.strip():
+                return [("field", ws, key, val)]          # a plain text value
+            # free text with braces / separators (an HTML documentation): ONE piece; the reader (quote aware since the repair of
+            # K-C19-6) takes everything between the quotes as text
+            return [("raw", ws + key + b"=" + val + b";")]
         e = self.d.index(b";", self.p)
         val = self.d[self.p:e]
         if re.search(rb'[{}<>("]', val):
@@ -339,6 +330,359 @@ def shipped():
     return "\n".join(out) + "\n"
 
 
+# ---------------------------------------------------------------- the shipped class diagrams as SEMANTIC diagrams (Model/UmlSem.v)
+
+TAGS = {"vis": "TVis", "ret": "TRet", "typemod": "TTypeMod", "abstract": "TAbstract", "query": "TQuery", "scope": "TScope", "doc": "TDoc",
+        "child": "TChild", "type": "TType", "typestring": "TTypeString", "dir": "TDir", "default": "TDefault", "mult": "TMult", "init": "TInit",
+        "setter": "TSetter", "getter": "TGetter", "readonly": "TReadOnly", "stereo": "TStereo", "from": "TFrom", "to": "TTo", "agg": "TAgg"}
+
+
+def sem_coq(S):
+    """Coq term of an sdiagram value (the nested lists harness/umlblob.Semantic builds; the decoder twin is ocaml/cmds_zzumlsem.ml)"""
+    L = coq_lit
+
+    def o(v):
+        if len(v) > 1:
+            raise Refuse("option with %d members" % len(v))
+        return "(Some %s)" % L(v[0]) if v else "None"
+
+    def b(v):
+        if v not in (b"0", b"1"):
+            raise Refuse("boolean %r" % v)
+        return "true" if v == b"1" else "false"
+
+    def strs(v):
+        return coq_list([L(x) for x in v])
+
+    def lay(v):
+        out = []
+        for sl in v:
+            if sl[0] == b"N" and len(sl) == 3:
+                out.append("SNoise %s %s" % (L(sl[1]), L(sl[2])))
+            elif sl[0] == b"I" and len(sl) == 2:
+                out.append("SInert (%s)" % coq_item(v_item(sl[1])))
+            elif sl[0] == b"T" and len(sl) == 2 and sl[1].decode() in TAGS:
+                out.append("STag %s" % TAGS[sl[1].decode()])
+            else:
+                raise Refuse("slot %r" % (sl,))
+        return coq_list(out)
+
+    def doc(v):
+        if len(v) != 2 or v[0] not in (b"T", b"R"):
+            raise Refuse("documentation %r" % (v,))
+        return "(%s %s)" % ("DText" if v[0] == b"T" else "DRaw", L(v[1]))
+
+    def param(v):
+        i, n, basic, ty, d, md, df, mu, nl, la = v
+        dirn = {b"in": "(Some true)", b"out": "(Some false)"}.get(d, "None")
+        return ("{| sp_id := %s; sp_name := %s; sp_basic := %s; sp_type := %s; sp_dir := %s; sp_mod := %s; sp_default := %s; sp_mult := %s; sp_nl := %s; sp_layout := %s |}"
+                % (L(i), L(n), o(basic), strs(ty), dirn, L(md), L(df), L(mu), L(nl), lay(la)))
+
+    def op(v):
+        i, n, vis, ret, rm, ab, qu, st, dc, ps, nl, la = v
+        return ("{| so_id := %s; so_name := %s; so_vis := %s; so_ret := %s; so_retmod := %s; so_abstract := %s; so_query := %s; so_static := %s; so_doc := %s;\n"
+                "         so_params := %s; so_nl := %s; so_layout := %s |}" % (L(i), L(n), o(vis), strs(ret), L(rm), b(ab), b(qu), b(st), doc(dc), coq_list([param(x) for x in ps]), L(nl), lay(la)))
+
+    def attr(v):
+        i, n, vis, ty, md, mu, dc, ini, se, ge, st, co, nl, la = v
+        return ("{| sa_id := %s; sa_name := %s; sa_vis := %s; sa_type := %s; sa_mod := %s; sa_mult := %s; sa_doc := %s; sa_init := %s; sa_setter := %s; sa_getter := %s;\n"
+                "         sa_static := %s; sa_const := %s; sa_nl := %s; sa_layout := %s |}" % (L(i), L(n), o(vis), strs(ty), L(md), L(mu), doc(dc), L(ini), b(se), b(ge), b(st), b(co), L(nl), lay(la)))
+
+    def member(v):
+        if v[0] == b"op":
+            return "MOp %s" % op(v[1])
+        if v[0] == b"attr":
+            return "MAttr %s" % attr(v[1])
+        if v[0] == b"lit":
+            return "MLit %s %s %s %s" % (L(v[1]), L(v[2]), L(v[3]), lay(v[4]))
+        raise Refuse("member %r" % v[0])
+
+    def end(v):
+        i, n, cl, mu, agg, vis, ge, se, co, nl, la = v
+        return ("{| se_id := %s; se_name := %s; se_class := %s; se_mult := %s; se_agg := %s; se_vis := %s; se_getter := %s; se_setter := %s; se_const := %s; se_nl := %s; se_layout := %s |}"
+                % (L(i), o(n), strs(cl), L(mu), o(agg), o(vis), b(ge), b(se), b(co), L(nl), lay(la)))
+
+    def elem(v):
+        k = v[0]
+        if k == b"class":
+            i, n, par, st, ab, dc, ms, nl, la = v[1]
+            return ("EClass {| sc_id := %s; sc_name := %s; sc_parent := %s; sc_stereos := %s; sc_abstract := %s; sc_doc := %s;\n      sc_members := [\n        %s];\n      sc_nl := %s; sc_layout := %s |}"
+                    % (L(i), L(n), o(par), strs(st), b(ab), doc(dc), ";\n        ".join(member(m) for m in ms), L(nl), lay(la)))
+        if k == b"package":
+            i, n, par, paths, nl, la = v[1]
+            return "EPackage {| sk_id := %s; sk_name := %s; sk_parent := %s; sk_paths := %s; sk_nl := %s; sk_layout := %s |}" % (L(i), L(n), o(par), coq_list([strs(x) for x in paths]), L(nl), lay(la))
+        if k == b"inh":
+            i, par, real, fr, t, nl, la = v[1]
+            return "EInh {| si_id := %s; si_parent := %s; si_real := %s; si_from := %s; si_to := %s; si_nl := %s; si_layout := %s |}" % (L(i), o(par), b(real), strs(fr), strs(t), L(nl), lay(la))
+        if k == b"assoc":
+            i, n, par, dc, fr, t, nl, la = v[1]
+            return ("EAssoc {| sx_id := %s; sx_name := %s; sx_parent := %s; sx_doc := %s;\n      sx_from := %s;\n      sx_to := %s;\n      sx_nl := %s; sx_layout := %s |}"
+                    % (L(i), o(n), o(par), doc(dc), end(fr), end(t), L(nl), lay(la)))
+        if k == b"other":
+            _k, i, n, ty, par, nl, la = v
+            return "EOther %s %s %s %s %s %s" % (L(i), o(n), L(ty), o(par), L(nl), lay(la))
+        raise Refuse("element %r" % k)
+
+    i, n, shapes, refs = S
+    return ("{| sd_id := %s; sd_name := %s;\n  sd_shapes := [\n    %s];\n  sd_refd := [\n    %s] |}" % (
+        L(i), L(n), ";\n    ".join("(%s, %s)" % (L(sid), elem(e)) for sid, e in shapes),
+        ";\n    ".join("{| sr_id := %s; sr_name := %s; sr_type := %s; sr_parent := %s; sr_nl := %s; sr_noise := %s |}" % (L(a), L(b_), L(c), o(d), L(nl_), lay(e_))
+                       for a, b_, c, d, nl_, e_ in refs)))
+
+
+# ---------------------------------------------------------------- the shipped rows -> SEMANTIC diagrams, every other property kept as inert
+
+def tabs(n):
+    return b"\r\n" + b"\t" * n
+
+
+def item_v(it):
+    k = it[0]
+    if k == "field":
+        return [b"F", it[1], it[2], it[3]]
+    if k == "refs":
+        return [b"R", it[1], it[2], it[3], it[4], it[5], list(it[6])]
+    if k == "children":
+        return [b"C", it[1], it[2], it[3], it[4], it[5], [node_v(n) for n in it[6]]]
+    if k == "raw":
+        return [b"W", it[1]]
+    raise Refuse("inert text in a shipped blob")
+
+
+def v_item(v):
+    k = v[0]
+    if k == b"F":
+        return ("field", v[1], v[2], v[3])
+    if k == b"R":
+        return ("refs", v[1], v[2], v[3], v[4], v[5], list(v[6]))
+    if k == b"C":
+        return ("children", v[1], v[2], v[3], v[4], v[5], [v_node(n) for n in v[6]])
+    if k == b"W":
+        return ("raw", v[1])
+    raise Refuse("item value %r" % k)
+
+
+def v_node(v):
+    i, name, ty, items, tail = v
+    return ("node", i, name[0] if name else None, ty, [v_item(x) for x in items], tail)
+
+
+def node_v(n):
+    _t, i, name, ty, items, tail = n
+    return [i, [] if name is None else [name], ty, [item_v(x) for x in items], tail]
+
+
+VTXT = re.compile(rb"[\x20-\x7e]*")
+
+
+def is_vtxt(b):
+    return (VTXT.fullmatch(b) is not None and not re.search(rb"[=<>;\\\"()'{}]", b) and b == b.strip()
+            and (not b or b.replace(b",", b"").strip() != b""))
+
+
+class Abstract:
+    """reads the semantic properties off a structured blob; whatever it does not recognise EXACTLY in the form the semantic writer
+    (Model/UmlSem.v tree_of) produces becomes an inert slot, so that tree_of of the result is the blob again (checked in Coq)"""
+
+    def layout(self, node, depth, rules):
+        """depth: number of tabs before the closing brace. rules: key -> (tag, test(item, nl)). Returns (slots, found: tag -> item, nl)"""
+        _t, _i, _name, _ty, items, tl = node
+        nl = tl[:len(tl) - depth]
+        if nl not in (b"\r\n", b"\n") or tl != nl + b"\t" * depth:
+            raise Refuse("element %r: closing %r is not a line break and %d tabs" % (node[1], tl, depth))
+        ws = nl + b"\t" * (depth + 1)
+        slots, found = [], {}
+        for it in items:
+            key = it[2] if it[0] in ("field", "refs", "children") else (re.match(rb"\s*([A-Za-z_0-9]+)=", it[1]).group(1) if it[0] == "raw" else None)
+            tag = None
+            if key in rules and (it[0] == "raw" or it[1] == ws) and rules[key][1](it, nl, ws):
+                tag = rules[key][0]
+            if tag is not None:
+                if tag in found:
+                    raise Refuse("element %r: property %r twice" % (node[1], key))
+                found[tag] = it
+                slots.append([b"T", tag.encode()])
+            else:
+                slots.append([b"I", item_v(it)])
+        return slots, found, nl
+
+    text = staticmethod(lambda tag: (tag, lambda it, nl, ws: it[0] == "field" and it[3][:1] == b'"' and is_vtxt(it[3][1:-1]) and it[3][1:-1] != b""))
+    flag = staticmethod(lambda tag: (tag, lambda it, nl, ws: it[0] == "field" and it[3] == b"T"))
+    code = staticmethod(lambda tag, allowed=None: (tag, lambda it, nl, ws: it[0] == "field" and re.fullmatch(rb"[0-9]+", it[3]) is not None
+                                                   and (allowed is None or it[3] in allowed)))
+    ref1 = staticmethod(lambda tag: (tag, lambda it, nl, ws: it[0] == "refs" and it[3] == b"" and it[5] == b"" and len(it[6]) == 1))
+    lst = staticmethod(lambda tag, kind, n_open, n_close: (tag, lambda it, nl, ws: it[0] == kind and it[3] == b"(" + nl + b"\t" * n_open
+                                                            and (it[4] == b", " + nl + b"\t" * n_open or (len(it[6]) == 1 and it[4] == b"")) and it[5] == nl + b"\t" * n_close + b")"
+                                                            and len(it[6]) > 0))
+    doc = staticmethod(lambda: ("doc", lambda it, nl, ws: (it[0] == "field" and it[3][:1] == b'"' and is_vtxt(it[3][1:-1]) and it[3][1:-1] != b"")
+                                or (it[0] == "raw" and it[1].startswith(ws + b'documentation_plain="') and it[1].endswith(b'";'))))
+
+    @staticmethod
+    def doc_v(found, nl, depth):
+        if "doc" not in found:
+            return [b"T", b""]
+        it = found["doc"]
+        if it[0] == "field":
+            return [b"T", it[3][1:-1]]
+        return [b"R", it[1][len(nl + b"\t" * (depth + 1) + b'documentation_plain="'):-2]]
+
+    @staticmethod
+    def txt(found, tag):
+        return found[tag][3][1:-1] if tag in found else b""
+
+    @staticmethod
+    def path(found, tag):
+        return found[tag][6][0].split(b":") if tag in found else []
+
+    def param(self, n):
+        slots, f, nl = self.layout(n, 4, {
+            b"type_string": self.text("typestring"), b"type": self.ref1("type"), b"direction": self.code("dir", (b"65", b"66")),
+            b"typeModifier": self.text("typemod"), b"defaultValue_string": self.text("default"), b"multiplicity": self.text("mult")})
+        if "typestring" in f and "type" in f:
+            raise Refuse("parameter %r with type_string and type" % n[1])
+        if n[2] is None:
+            raise Refuse("parameter without name")
+        d = {b"65": b"in", b"66": b"out"}[f["dir"][3]] if "dir" in f else b""
+        return [n[1], n[2], [self.txt(f, "typestring")] if "typestring" in f else [], self.path(f, "type"), d, self.txt(f, "typemod"), self.txt(f, "default"),
+                self.txt(f, "mult"), nl, slots]
+
+    def op(self, n):
+        slots, f, nl = self.layout(n, 2, {
+            b"visibility": self.code("vis"), b"returnType": self.ref1("ret"), b"typeModifier": self.text("typemod"), b"abstract": self.flag("abstract"),
+            b"query": self.flag("query"), b"scope": self.code("scope", (b"65",)), b"documentation_plain": self.doc(),
+            b"Child": self.lst("child", "children", 4, 3)})
+        ps = f["child"][6] if "child" in f else []
+        if any(x[3] != b"Parameter" for x in ps):
+            raise Refuse("operation %r owns something else than parameters" % n[1])
+        if n[2] is None:
+            raise Refuse("operation without name")
+        return [n[1], n[2], [f["vis"][3]] if "vis" in f else [], self.path(f, "ret"), self.txt(f, "typemod"), bb("abstract" in f), bb("query" in f),
+                bb("scope" in f), self.doc_v(f, nl, 2), [self.param(x) for x in ps], nl, slots]
+
+    def attr(self, n):
+        slots, f, nl = self.layout(n, 2, {
+            b"visibility": self.code("vis"), b"type": self.ref1("type"), b"typeModifier": self.text("typemod"), b"multiplicity": self.text("mult"),
+            b"documentation_plain": self.doc(), b"initialValue_string": self.text("init"), b"hasSetter": self.flag("setter"),
+            b"hasGetter": self.flag("getter"), b"scope": self.code("scope", (b"65",)), b"readOnly": self.flag("readonly")})
+        if n[2] is None:
+            raise Refuse("attribute without name")
+        return [n[1], n[2], [f["vis"][3]] if "vis" in f else [], self.path(f, "type"), self.txt(f, "typemod"), self.txt(f, "mult"), self.doc_v(f, nl, 2),
+                self.txt(f, "init"), bb("setter" in f), bb("getter" in f), bb("scope" in f), bb("readonly" in f), nl, slots]
+
+    def member(self, n):
+        if n[3] == b"Operation":
+            return [b"op", self.op(n)]
+        if n[3] == b"Attribute":
+            return [b"attr", self.attr(n)]
+        if n[3] == b"EnumerationLiteral":
+            slots, _f, nl = self.layout(n, 2, {})
+            if n[2] is None:
+                raise Refuse("literal without name")
+            return [b"lit", n[1], n[2], nl, slots]
+        raise Refuse("class member of type %r" % n[3])
+
+    def elem(self, row, n):
+        ty, par = n[3], ([row[2]] if row[2] is not None else [])
+        if ty == b"Class":
+            slots, f, nl = self.layout(n, 0, {b"stereotypes": self.lst("stereo", "refs", 2, 1), b"abstract": self.flag("abstract"),
+                                              b"documentation_plain": self.doc(), b"Child": self.lst("child", "children", 2, 1)})
+            if n[2] is None:
+                raise Refuse("class without name")
+            return [b"class", [n[1], n[2], par, list(f["stereo"][6]) if "stereo" in f else [], bb("abstract" in f), self.doc_v(f, nl, 0),
+                               [self.member(x) for x in (f["child"][6] if "child" in f else [])], nl, slots]]
+        if ty == b"Package":
+            slots, f, nl = self.layout(n, 0, {b"Child": self.lst("child", "refs", 2, 1)})
+            if n[2] is None:
+                raise Refuse("package without name")
+            return [b"package", [n[1], n[2], par, [x.split(b":") for x in f["child"][6]] if "child" in f else [], nl, slots]]
+        if ty in (b"Realization", b"Generalization"):
+            slots, f, nl = self.layout(n, 0, {b"fromModel": self.ref1("from"), b"toModel": self.ref1("to")})
+            if n[2] is not None or "from" not in f or "to" not in f:
+                raise Refuse("inheritance %r: name or missing end" % n[1])
+            return [b"inh", [n[1], par, bb(ty == b"Realization"), self.path(f, "from"), self.path(f, "to"), nl, slots]]
+        if ty == b"Association":
+            def endrule(tag):
+                return (tag, lambda it, nl, ws: it[0] == "children" and it[3] == b"" and it[4] == b"" and it[5] == b"" and len(it[6]) == 1
+                        and it[6][0][3] == b"AssociationEnd")
+            slots, f, nl = self.layout(n, 0, {b"documentation_plain": self.doc(), b"from": endrule("from"), b"to": endrule("to")})
+            if "from" not in f or "to" not in f:
+                raise Refuse("association %r without two ends" % n[1])
+
+            def end(e, frm):
+                sl, g, enl = self.layout(e, 1, {
+                    b"Direction": self.code("dir", (b"0" if frm else b"1",)), b"EndModelElement": self.ref1("type"), b"multiplicity": self.text("mult"),
+                    b"aggregationKind": self.code("agg"), b"visibility": self.code("vis"), b"providePropertyGetterMethod": self.flag("getter"),
+                    b"providePropertySetterMethod": self.flag("setter"), b"readOnly": self.flag("readonly")})
+                if "dir" not in g or "type" not in g:
+                    raise Refuse("association end %r without Direction / EndModelElement" % e[1])
+                return [e[1], [] if e[2] is None else [e[2]], self.path(g, "type"), self.txt(g, "mult"), [g["agg"][3]] if "agg" in g else [],
+                        [g["vis"][3]] if "vis" in g else [], bb("getter" in g), bb("setter" in g), bb("readonly" in g), enl, sl]
+            return [b"assoc", [n[1], [] if n[2] is None else [n[2]], par, self.doc_v(f, nl, 0), end(f["from"][6][0], True), end(f["to"][6][0], False), nl, slots]]
+        slots, _f, nl = self.layout(n, 0, {})
+        return [b"other", n[1], [] if n[2] is None else [n[2]], ty, par, nl, slots]
+
+
+def bb(x):
+    return b"1" if x else b"0"
+
+
+def class_diagram_rows():
+    """[(diagram id, name, [(shape id, row)], [referenced row])] of the shipped project, as shipped() reads them"""
+    con = sqlite3.connect("file:%s?mode=ro" % os.path.join(REPO, BLOB), uri=True)
+    try:
+        diagrams = [tuple(tob(x) for x in r) for r in con.execute("SELECT ID, DIAGRAM_TYPE, NAME FROM DIAGRAM")]
+        delems = [tuple(tob(x) for x in r) for r in con.execute("SELECT ID, SHAPE_TYPE, DIAGRAM_ID, MODEL_ELEMENT_ID FROM DIAGRAM_ELEMENT")]
+        melems = {}
+        for r in con.execute("SELECT ID, MODEL_TYPE, PARENT_ID, NAME, DEFINITION FROM MODEL_ELEMENT"):
+            r = tuple(tob(x) for x in r)
+            melems[r[0]] = r
+    finally:
+        con.close()
+    out = []
+    for did, t, dname in diagrams:
+        if t != b"ClassDiagram":
+            continue
+        drawn = [(eid, melems[mid]) for (eid, _shape, dg, mid) in delems if dg == did]
+        drawn_ids = [row[0] for _e, row in drawn]
+        refd = []
+        for _e, row in drawn:
+            for tok in IDTOK.findall(row[4]):
+                if tok in melems and tok not in drawn_ids and tok not in refd:
+                    refd.append(tok)
+        out.append((did, dname, drawn, [melems[i] for i in refd]))
+    return out
+
+
+def semantic_real():
+    """[(name, S value)]: both shipped class diagrams as semantic diagrams WITH all their other properties (inert slots)"""
+    A = Abstract()
+    res = []
+    for did, dname, drawn, refd in class_diagram_rows():
+        shapes = [[eid, A.elem(row, read_blob(row[4]))] for eid, row in drawn]
+        refs = []
+        for row in refd:
+            n = read_blob(row[4])
+            slots, _f, nl = A.layout(n, 0, {})
+            if n[2] is None:
+                raise Refuse("referenced element %r without name" % n[1])
+            refs.append([n[1], n[2], n[3], [row[2]] if row[2] is not None else [], nl, slots])
+        res.append((dname, [did, dname, shapes, refs]))
+    return res
+
+
+def semantic_shipped():
+    """Gen/UmlSemShipped.v: both shipped class diagrams as semantic diagrams, every property the semantic model does not know kept
+    as an inert slot (Proofs/UmlSemCalib.v checks that writing them reproduces the shipped rows byte for byte)"""
+    out = ["From KV Require Import Lib.Str Model.Vpp Model.UmlWriter Model.UmlSem.\n"]
+    names = []
+    for dname, S in semantic_real():
+        nm = "sem_" + dname.decode()
+        out.append("Definition %s : sdiagram :=\n%s.\n" % (nm, sem_coq(S)))
+        names.append(nm)
+    out.append("Definition shipped_sem : list sdiagram := %s." % coq_list(names))
+    return "\n".join(out) + "\n"
+
+
 def run():
     tree = parse(SRC)
     fs = parse(SRC_FS)
@@ -358,13 +702,14 @@ def run():
            ("parse_operations", find_def(tree, "ParseOperations", "Class")), ("package", find_def(tree, "ParseClassesInPackage", "Package")),
            ("inheritance", find_def(tree, "Parse", "Inheritance")), ("association", find_def(tree, "ParseAssociation", "Association")),
            ("nested_type_names", find_def(tree, "GetNestedTypeNamesFromNestedTypeIDS")), ("values_from_outside", find_def(fs, "Get_ValuesFromOutside")),
-           ("parse_blob", find_def(fs, "ParseBLOB_Recursive")), ("container_type", find_def(tree, "GetContainerMultiplicityType", "Class")),
+           ("parse_blob", find_def(fs, "ParseBLOB_Recursive")), ("split_outside_quotes", find_def(fs, "SplitOutsideQuotes")), ("container_type", find_def(tree, "GetContainerMultiplicityType", "Class")),
            ("type_and_name", find_def(cpp, "GetTypeAndNameFromMultiplicityAndModifier", "LanguageCPP")),
            ("default_format", find_def(cpp, "GetDefaultFormatFromMultiplicityAndModifier", "LanguageCPP")),
            ("loadandtest", find_def(tree, "LoadAndTest", "ClassDiagram"))]
     for name, fn in fns:
         out.append("Definition literals_%s : list string := %s." % (name, coq_str_list(literals(fn))))
     write_gen("UmlBlobSrc.v", "\n".join(out) + "\n", [SRC, SRC_FS, SRC_CPP])
+    write_gen("UmlSemShipped.v", semantic_shipped(), [BLOB, SRC, SRC_FS])
     return write_gen("UmlBlobShipped.v", shipped(), [BLOB, SRC])
 
 
